@@ -54,15 +54,19 @@ MunchMaximal ==
   cfg.out = "run" /\ cfg.s.k \in {"Ni", "Nf", "Nx"} =>
      \A b \in 48..57 : Step(cfg, b).s.k = cfg.s.k /\ Step(cfg, b).pos = cfg.pos + 1
 
+\* identity of a state of the cover graph (the VIEW, as a string)
+Key(c) == ToString(<<c.s.k, c.s.c, c.s.x, c.s.n, c.s.w, c.stk, c.out>>)
+
 \* ---- emission for replay ---------------------------------------------------------
 Emit ==
   EmitStates =>
-    PrintT(ToJson(<<"STATE", cfg.s.k, cfg.s.c, cfg.s.x, cfg.s.n, cfg.s.w, Len(cfg.stk), cfg.out, inp,
+    PrintT(ToJson(<<"STATE", Key(cfg), cfg.s.k, cfg.s.c, cfg.s.x, cfg.s.n, cfg.s.w, Len(cfg.stk), cfg.out, inp,
              IF cfg.out = "run" THEN Completion(cfg) ELSE <<>>,
+             CloseStack(cfg.stk),
              IF cfg.out = "run"
                THEN [i \in 1..Cardinality(Reps) |->
                        LET b == SetToSeq(Reps)[i]  c2 == Step(cfg, b)
-                       IN <<b, c2.out, IF c2.out = "run" THEN Completion(c2) ELSE <<>> >>]
+                       IN <<b, c2.out, IF c2.out = "run" THEN Completion(c2) ELSE <<>>, Key(c2)>>]
                ELSE <<>> >>))
 
 ASSUME PrintT(ToJson(<<"CLASSES", [b \in 1..256 |-> ClassOf(b - 1)]>>))
